@@ -4,7 +4,7 @@
    eval_item / var_eval = the code after the two fix: commits; eval_item_orig = the pinned commit (refuted below).
    clean / plain_refs: no collection type / no referenced type carries allowed values (where the pinned commit was right). *)
 From Coq Require Import List NArith Bool Arith.
-From DV Require Import C16.Model C16.Proofs C11.Model C11.Proofs.
+From DV Require Import C16.Model C16.Proofs C16.Rel C11.Model C11.Proofs C11.ConfModel C11.ConfProofs.
 Import ListNotations.
 
 (* the copy-pasted closures all compute the one generic function of their simple type *)
@@ -94,6 +94,117 @@ Example C11_nonvacuous :
   eval_item 9 D_ex (ICollRef 2%N None) bad = VList [VCtx [(1%N, VNull); (2%N, VAtom SString 1%N)]; VNull].
 Proof. exact nonvacuous. Qed.
 
+(* =====================================================================================================================
+   Against an INDEPENDENT specification (coq/C11/ConfModel.v; audit problems 5 and 12).  None of resolve / conforms_to / spec /
+   whole / rtype mentions eval_item, check or gcheck.
+     resolve f D T = Some t   the fuel f covers the tree of T (iff enough f D T); t = T with its type references followed;
+     conforms_to t v          by recursion on the TYPE t: simple = the FEEL type of v (C16 type_of) is the simple type and v is
+                              allowed; reference = conforms to the referenced type and is allowed; components = a context with
+                              exactly the declared components, each conforming; collection = a list of conforming items;
+     whole t                  t is judged as a whole: simple, collection of simple, references to such;
+     spec t v                 v if conforms_to t v; else component-wise (component type), item-wise (collection of a
+                              referenced type), item- and component-wise (collection of a component type); else null.
+   What the real code does (observed through `dv model` before stating, and the same in the model): a context with undeclared
+   entries loses them; a context lacking a declared component is null as a whole; null conforms to nothing and stays null;
+   a non-conforming component / item of a referenced type is nulled on its own, so "v if it conforms else null" holds for
+   the whole-judged types only (C11_eval_item_spec) and is refuted for component types (C11_plain_equation_refuted).
+   ===================================================================================================================== *)
+Theorem C11_enough_iff_resolves : forall f D T, enough f D T = true <-> exists t, resolve f D T = Some t.
+Proof. exact enough_iff_resolves. Qed.
+Theorem C11_resolve_fuel_independent : forall f g D T t, resolve f D T = Some t -> f <= g -> resolve g D T = Some t.
+Proof. exact resolve_fuel. Qed.
+(* the fuelled conformance of Model.v (the `conforms` of the theorems above) is the fuel-free one *)
+Theorem C11_conforms_fuel_free : forall f D T t v, resolve f D T = Some t -> C11.Model.conforms f D T v = conforms_to t v.
+Proof. exact conforms_link. Qed.
+
+(* a conforming value reaches the decision unchanged: every type tree, every value *)
+Theorem C11_eval_item_conforming_unchanged : forall f D T t v, wf_defs D = true -> wf_idef T = true -> resolve f D T = Some t ->
+  conforms_to t v = true -> eval_item f D T v = v.
+Proof. exact conforming_unchanged. Qed.
+(* whole-judged types: the conforming value unchanged, EVERYTHING ELSE null *)
+Theorem C11_eval_item_spec : forall f D T t v, wf_defs D = true -> wf_idef T = true -> resolve f D T = Some t -> whole t = true ->
+  eval_item f D T v = if conforms_to t v then v else VNull.
+Proof. exact eval_item_whole. Qed.
+(* every type: the code computes the specification (conforming -> unchanged, else component- / item-wise, else null) *)
+Theorem C11_eval_item_spec_general : forall f D T t v, wf_defs D = true -> wf_idef T = true -> resolve f D T = Some t ->
+  eval_item f D T v = spec t v.
+Proof. exact eval_item_spec. Qed.
+Theorem C11_spec_whole : forall t v, whole t = true -> spec t v = if conforms_to t v then v else VNull.
+Proof. exact spec_whole. Qed.
+(* the plain equation is false for a component type: {a: "s7", b: "s1"} against {a: number, b: string} is {a: null, b: "s1"} *)
+Theorem C11_plain_equation_refuted :
+  let T := IComp [(1%N, ISimple PNumber None); (2%N, ISimple PString None)] None in
+  let v := VCtx [(1%N, VAtom SString 7%N); (2%N, VAtom SString 1%N)] in
+  exists t, resolve 2 [] T = Some t /\ conforms_to t v = false /\
+  eval_item 2 [] T v = VCtx [(1%N, VNull); (2%N, VAtom SString 1%N)].
+Proof. exact plain_equation_refuted. Qed.
+
+(* extra entries, missing components, null *)
+Theorem C11_extra_entries_dropped : forall f D fs av es, has_all fs es = true ->
+  eval_item f D (IComp fs av) (VCtx es) = eval_item f D (IComp fs av) (VCtx (restrict fs es)).
+Proof. exact extra_entries_dropped. Qed.
+Theorem C11_extra_entries_result : forall f D fs av t es, wf_defs D = true -> wf_idef (IComp fs av) = true ->
+  resolve f D (IComp fs av) = Some t -> has_all fs es = true -> conforms_to t (VCtx (restrict fs es)) = true ->
+  eval_item f D (IComp fs av) (VCtx es) = VCtx (restrict fs es).
+Proof. exact extra_entries_result. Qed.
+Theorem C11_missing_component_null : forall f D fs av es, has_all fs es = false -> eval_item f D (IComp fs av) (VCtx es) = VNull.
+Proof. exact missing_component_null. Qed.
+Theorem C11_null_not_conforming : forall t, conforms_to t VNull = false.
+Proof. exact null_not_conforming. Qed.
+Theorem C11_null_stays_null : forall f D T, eval_item f D T VNull = VNull.
+Proof. exact null_stays_null. Qed.
+
+(* the declared FEEL type (item_definition_type.rs, Variable::feel_type): with enough fuel it is fuel-independent and it is the
+   type read off the resolved tree; the Any fallback is taken only when the chain of type references ends in an undefined name.
+   C11_var_type_low_fuel: below that fuel the declared type silently becomes Any, so the hypothesis is needed. *)
+Theorem C11_idef_type_declared : forall f D T t, resolve f D T = Some t -> idef_type f D T = rtype t.
+Proof. exact idef_type_declared. Qed.
+Theorem C11_var_type_fuel_sufficient : forall f g D r, enough_ref f D r = true -> f <= g -> var_type g D r = var_type f D r.
+Proof. exact var_type_fuel_sufficient. Qed.
+Theorem C11_var_type_declared : forall f D n T t, dlookup n D = Some T -> resolve f D T = Some t ->
+  var_type f D (RNamed n) = match rtype t with Some u => u | None => TS SAny end /\
+  (rtype t = None -> ends_dangling t = true).
+Proof. exact var_type_declared. Qed.
+Example C11_var_type_low_fuel :
+  let D := [(1%N, ISimple PNumber None); (2%N, IRef 1%N None)] in
+  var_type 1 D (RNamed 2%N) = TS SAny /\ enough_ref 1 D (RNamed 2%N) = false /\
+  enough_ref 2 D (RNamed 2%N) = true /\ var_type 2 D (RNamed 2%N) = TS SNumber.
+Proof. exact var_type_low_fuel. Qed.
+
+(* output side as one equation: the first of  v, [v], (x when v = [x])  whose type conforms to the declared type, else null
+   (coerced_spec of coq/C16/Rel.v); fuel-independent once the fuel covers the declared type *)
+Theorem C11_output_spec : forall f D r v, wf_defs D = true -> wfv v = true ->
+  output_value f D r v = coerced_spec (var_type f D r) v.
+Proof. exact output_spec. Qed.
+Theorem C11_output_fuel_sufficient : forall f g D r v, enough_ref f D r = true -> f <= g ->
+  output_value g D r v = output_value f D r v.
+Proof. exact output_fuel_sufficient. Qed.
+
+(* non-vacuity: nested components, a collection of a referenced component type, allowed values on a simple type, on a
+   collection and on a reference; the values agree with the answers of the real code (dv model) *)
+Example C11_nonvacuous_spec :
+  let T := IRef 4%N None in
+  let row a b := VCtx [(1%N, VAtom SNumber a); (2%N, VAtom SString b)] in
+  let good := VCtx [(3%N, VList [row 25%N 1%N; row 3%N 1%N]); (4%N, VCtx [(1%N, VList [VAtom SNumber 5%N])])] in
+  let bad := VCtx [(3%N, VList [row 25%N 1%N; row 15%N 2%N; VAtom SNumber 1%N]);
+                   (4%N, VCtx [(1%N, VList [VAtom SNumber 5%N; VAtom SNumber 6%N])]); (9%N, VNull)] in
+  wf_defs D_nest = true /\ enough 6 D_nest T = false /\ enough 7 D_nest T = true /\
+  exists t, resolve 7 D_nest T = Some t /\ whole t = false /\
+    conforms_to t good = true /\ eval_item 7 D_nest T good = good /\
+    conforms_to t bad = false /\
+    eval_item 7 D_nest T bad =
+      VCtx [(3%N, VList [row 25%N 1%N; VCtx [(1%N, VNull); (2%N, VNull)]; VNull]); (4%N, VCtx [(1%N, VNull)])] /\
+    spec t bad = eval_item 7 D_nest T bad.
+Proof. exact nonvacuous_spec. Qed.
+Example C11_nonvacuous_whole :
+  let T := IRef 1%N (Some [UGe 25%N]) in
+  exists t, resolve 3 D_nest T = Some t /\ whole t = true /\
+    conforms_to t (VAtom SNumber 27%N) = true /\ eval_item 3 D_nest T (VAtom SNumber 27%N) = VAtom SNumber 27%N /\
+    conforms_to t (VAtom SNumber 22%N) = false /\ eval_item 3 D_nest T (VAtom SNumber 22%N) = VNull /\
+    conforms_to t (VAtom SNumber 31%N) = false /\ eval_item 3 D_nest T (VAtom SNumber 31%N) = VNull /\
+    conforms_to t (VAtom SString 27%N) = false /\ eval_item 3 D_nest T (VAtom SString 27%N) = VNull.
+Proof. exact nonvacuous_whole. Qed.
+
 Print Assumptions C11_copies_uniform_simple.
 Print Assumptions C11_copies_uniform_collection.
 Print Assumptions C11_copies_uniform_variable.
@@ -116,3 +227,24 @@ Print Assumptions C11_referenced_orig_refuted.
 Print Assumptions C11_collection_orig_refuted.
 Print Assumptions C11_orig_agrees_outside_findings.
 Print Assumptions C11_nonvacuous.
+Print Assumptions C11_enough_iff_resolves.
+Print Assumptions C11_resolve_fuel_independent.
+Print Assumptions C11_conforms_fuel_free.
+Print Assumptions C11_eval_item_conforming_unchanged.
+Print Assumptions C11_eval_item_spec.
+Print Assumptions C11_eval_item_spec_general.
+Print Assumptions C11_spec_whole.
+Print Assumptions C11_plain_equation_refuted.
+Print Assumptions C11_extra_entries_dropped.
+Print Assumptions C11_extra_entries_result.
+Print Assumptions C11_missing_component_null.
+Print Assumptions C11_null_not_conforming.
+Print Assumptions C11_null_stays_null.
+Print Assumptions C11_idef_type_declared.
+Print Assumptions C11_var_type_fuel_sufficient.
+Print Assumptions C11_var_type_declared.
+Print Assumptions C11_var_type_low_fuel.
+Print Assumptions C11_output_spec.
+Print Assumptions C11_output_fuel_sufficient.
+Print Assumptions C11_nonvacuous_spec.
+Print Assumptions C11_nonvacuous_whole.
